@@ -23,7 +23,7 @@ func init() {
 		Assumptions: []string{"Of/OfMany compared only on ascending (merged) lists, sizes >= 0, positions >= 0 (Of's stated domain)", "Builder compared as a set; extra zero words are allowed",
 			"Get/Get1 probed only inside the bitmap"},
 		Flavours: releaseAnd386,
-		Required: []string{"of/empty-list", "of/n-absent", "of/n-absent-as-empty-non-nil-variadic", "of/n-negative", "of/n<last+1", "of/n>last+1", "of/last%64=63", "of/last%64=0", "probe/negative", "probe/beyond", "probe/maxint32", "probe/minint32",
+		Required: []string{"arguments-in-read-only-memory", "of/empty-list", "of/n-absent", "of/n-absent-as-empty-non-nil-variadic", "of/n-negative", "of/n<last+1", "of/n>last+1", "of/last%64=63", "of/last%64=0", "probe/negative", "probe/beyond", "probe/maxint32", "probe/minint32",
 			"ofmany/pos>=size", "ofmany/size=0", "ofmany/empty-sub", "ofmany/segments-carved-from-one-arena", "ofmany/shifted-list-not-ascending", "builder/extend-pos>=size", "builder/extend-size=0", "builder/extend-empty", "builder/set-0", "builder/set-1", "builder/presized", "builder/over-dirty-capacity", "roundtrip/trailing-zero-words", "probe/bitmap>=2^31-bits"},
 		Families: func(c *mon.Config) []mon.Family {
 			return []mon.Family{
@@ -108,6 +108,12 @@ func trimZeros(ws []uint64) []uint64 {
 
 func c12Probe(w *mon.W, bm []uint64, member map[int32]bool) bool {
 	total := 64 * len(bm)
+	if !w.RO && len(bm) > 0 && (len(bm)+len(member))%3 == 1 { // the bitmap in memory that cannot be written (ro.go)
+		if v, rel, ok := roOneW(w, bm); ok {
+			bm = v
+			defer rel()
+		}
+	}
 	check := func(p int32) bool {
 		in := member[p]
 		var e1 uint64
@@ -203,6 +209,11 @@ func c12Of(w *mon.W, idx int) {
 	l, guardL := argI32(w, l)
 	if lOrig == nil {
 		l, guardL = nil, func() bool { return true }
+	} else if idx%4 == 1 { // the position list in memory that cannot be written (ro.go)
+		if v, rel, ok := roOneI32(w, lOrig); ok {
+			l = v
+			defer rel()
+		}
 	}
 	if useN {
 		got = bitmap.Of(l, nArg)
@@ -313,6 +324,12 @@ func c12RoundTrip(w *mon.W, idx int) {
 				w.Fail("ToArray/wrote-outside-len-of-argument", mon.D{"nwords": len(orig)})
 			}
 		}()
+		if idx%4 == 1 {
+			if v, rel, ok := roOneW(w, orig); ok {
+				bm = v
+				defer rel()
+			}
+		}
 	}
 	w.Op, w.Obj = "ToArray", nil
 	arr := bitmap.ToArray(bm)
@@ -460,6 +477,15 @@ func c12OfMany(w *mon.W, idx int) {
 	if len(subs) == 0 && idx%2 == 0 {
 		qSubs, qSizes = nil, nil
 	}
+	if idx%4 == 3 && qSubs != nil { // sizes, the segment list and the segments in memory that cannot be written (ro.go)
+		roReset(w)
+		rs, rz := roI32s(w, subs), roI32(w, sizes)
+		if rel, ok := roSeal(w); ok {
+			qSubs, qSizes = rs, rz
+			defer rel()
+			w.Bucket("arguments-in-read-only-memory")
+		}
+	}
 	got := bitmap.OfMany(qSubs, qSizes)
 	w.Eval(1)
 	if !gSizes() || !eqI32(qSizes, sizes) || len(outer[0]) != 1 || len(outer[1+len(subs)]) != 1 || len(outer[2+len(subs)]) != 1 || &outer[0][0] != &sentinel[0] || &outer[1+len(subs)][0] != &sentinel[0] {
@@ -533,7 +559,16 @@ func c12Builder(w *mon.W, idx int) {
 			if s.pos == nil {
 				qPos, gPos = nil, func() bool { return true }
 			}
-			b.Extend(qPos, s.size)
+			if (op+idx)%4 == 2 && s.pos != nil { // the positions in memory that cannot be written (ro.go)
+				if v, rel, ok := roOneI32(w, in); ok {
+					b.Extend(v, s.size)
+					rel()
+				} else {
+					b.Extend(qPos, s.size)
+				}
+			} else {
+				b.Extend(qPos, s.size)
+			}
 			if !eqI32(in, qPos) {
 				w.Fail("Builder.Extend/input-modified", mon.D{"history": hist})
 				return
